@@ -96,6 +96,35 @@ func evalFunc(f *ssa.Function, env *cmpEnv) (any, string) {
 					}
 				}
 			}
+			switch x.Op {
+			case token.ADD, token.SUB, token.MUL, token.QUO, token.REM:
+				_, okA := env.attr(x.X)
+				_, okB := env.attr(x.Y)
+				if !okA && !okB {
+					l, okL := eval(x.X)
+					r, okR := eval(x.Y)
+					li, ok1 := l.(int64)
+					ri, ok2 := r.(int64)
+					if okL && okR && ok1 && ok2 {
+						switch x.Op {
+						case token.ADD:
+							return li + ri, true
+						case token.SUB:
+							return li - ri, true
+						case token.MUL:
+							return li * ri, true
+						case token.QUO:
+							if ri != 0 {
+								return li / ri, true
+							}
+						case token.REM:
+							if ri != 0 {
+								return li % ri, true
+							}
+						}
+					}
+				}
+			}
 			if x.Op == token.SUB {
 				// a.attr - b.attr : only its sign is meaningful
 				a, okA := env.attr(x.X)
